@@ -37,14 +37,16 @@ def vsrc_harnesses():
                     continue
                 n_calls = total // cap + rep + 3
                 for di, dr in enumerate(([cap] * n_calls, [1] * (total + rep + 3), [0, 0] + [cap] * n_calls)):
-                    core = cap == 2 and ((ln, rep) in ((3, 2), (5, 1), (2, 0), (0, 2), (1, 3))) and di in (0, 1)
+                    if total >= 5 and di == 1:
+                        continue  # one sample per call over 5+ samples exhausts 14 GB
+                    core = cap == 2 and (((ln, rep) in ((3, 2), (5, 1), (2, 0), (0, 2), (1, 3)) and di in (0, 1)) or ((ln, rep) == (2, 2) and di == 2))
                     hs.append(Harness(f"c16_vsrc_c{cap}_l{ln}_r{rep}_d{di}", f"crate::c12::vector_source({ln}, {rep}, {cap}, {rl(dr)})",
                                       unwind=28, unit="VectorSource::work", timeout=1200,
                                       shape={"cap": cap, "len": ln, "repeat": rep, "drains": dr}, core=core))
     for cap in (1, 2):
         for ln in (1, 2, 3):
             for di, dr in enumerate(([cap] * 5, [1, 0, 1, cap, 1, 1])):
-                hs.append(Harness(f"c16_vsrc_inf_c{cap}_l{ln}_d{di}", f"crate::c09::vector_source({ln}, {cap}, {rl(dr)}, true)", unwind=12,
+                hs.append(Harness(f"c16_vsrc_inf_c{cap}_l{ln}_d{di}", f"crate::c09::vector_source({ln}, {cap}, {rl(dr)}, true)", unwind=28,
                                   unit="VectorSource::work (infinite)", shape={"cap": cap, "len": ln, "repeat": "infinite", "drains": dr},
                                   core=(cap == 2 and ln == 2), timeout=900))
     return hs
